@@ -16,6 +16,14 @@ def main():
         res = enumlib.run(binary, "TestVerifEnum", tier, 80 if tier == "quick" else 800)
         enumlib.report(rep, res, "bounded-exhaustive enumeration (odometers over boundary-size alphabets, deviation-bounded reader scripts) against an independent table-driven reference decoder; "
                        "a case is non-trivial if it contains at least one chunk/byte, distinct after canonicalising to (operation sequence, reader script)")
+        # the server's stream source: websocketconn over a real WebSocket, messages of every grouping
+        wb = enumlib.build("websocketconn-enum", "common/websocketconn", {"zz_verif_c09_test.go": os.path.join(vlib.VERIF, "harness/websocketconn/c09_test.go")})
+        res2 = enumlib.run(wb, "TestVerifEnumC09WS", tier, 120, nshards=8)
+        for f in res2["findings"]:
+            rep.finding(f["sig"], f["msg"], {"input": f["input"], "kind": "encapsulated stream through websocketconn over a loopback WebSocket", "test": "TestVerifEnumC09WS"})
+        rep.coverage["websocket_stream"] = {"groupings": res2["evaluations"], "completed": res2["exhaustive"], "sections": res2["sections"]}
+        if not res2["exhaustive"]:
+            rep.coverage["exhaustive"] = False
     except vlib.EngineError as e:
         rep.engine_errors.append(str(e))
     rep.assumptions += ["reader scripts never return (0, nil) twice in a row (the io.Reader contract discourages unbounded zero reads)",
